@@ -73,7 +73,43 @@ def run(pid, tier, seed, gate, replay=None):
             failing.append((s, a, b, o))
         elif [G.obs(x) for x in a] != [G.obs(x) for x in b]:
             mism.append((s, a, b))
+    # end to end: removes through the real store with the tombstone log on, restarts, the key must stay absent
+    e2e_fail = None
+    if not replay:
+        from . import hybrid as H
+        C.build_harness(["hybridsim"])
+        hs = []
+        for i in range(200 if tier == "thorough" else 24):
+            ops, ver = [], 1
+            keys = list(range(4))
+            for _ in range(rng.randrange(2, 8)):
+                k = rng.choice(keys)
+                kind = rng.choice(["ins-wait-rm", "ins-rm", "rm-ins-rm", "ins-rm-ins"])
+                if kind == "ins-wait-rm":
+                    ops += [f"ins k={k} ver={ver} size=64", "wait", f"rm k={k}"]; ver += 1
+                elif kind == "ins-rm":
+                    ops += [f"ins k={k} ver={ver} size=64", f"rm k={k}"]; ver += 1
+                elif kind == "rm-ins-rm":
+                    ops += [f"rm k={k}", f"ins k={k} ver={ver} size=64", f"rm k={k}"]; ver += 1
+                else:
+                    ops += [f"ins k={k} ver={ver} size=64", f"rm k={k}", f"ins k={k} ver={ver + 1} size=64"]; ver += 2
+                if rng.random() < 0.5:
+                    ops.append("wait")
+                if rng.random() < 0.3:
+                    ops += ["wait", "close", "reopen"]
+            ops += ["wait", "close", "reopen"] + [f"get k={k}" for k in keys] + ["close", "reopen"] + [f"get k={k}" for k in keys]
+            hs.append(H.cfg_line(policy=rng.choice(["woi", "woe"]), algo="fifo", mem=rng.choice([2, 100]), univ=4, tomb=1, blocks=16)
+                      + "\n" + "\n".join(ops) + "\n")
+        for sc, (cfgl, lines) in zip(hs, H.run_many(hs)):
+            o = H.oracle_c01(cfgl, lines)
+            if o:
+                e2e_fail = (sc, lines, o); break
     violations = []
+    if e2e_fail and not failing:
+        sc, lines, o = e2e_fail
+        rp = C.write_replay(pid, seed, "e2e", dict(property=pid, stream="hybridsim/tombstone", script=sc, impl_obs=lines,
+                                                  oracle=dict(failed_at=o[0], what=o[1]), broken=None))
+        violations.append(dict(replay=rp, what=o[1]))
     if failing:
         s, a, b, o = min(failing, key=lambda t: (len(t[0]), sum(int(G.kv(x).get("n", 0)) for x in t[0])))
         rp = C.write_replay(pid, seed, 0, dict(property=pid, stream="fmt/tombstone", script=s, impl_obs=a, model_obs=b,
